@@ -189,6 +189,19 @@ Theorem C06_address_injective : forall (hash160 dsha : bytes -> bytes) prefix pk
 Proof. exact address_injective. Qed.
 Print Assumptions C06_address_injective.
 
+(* The address handed out for (chain c, index i) from the account PUBLIC key (get_public_key / _generate_keys)
+   is the address of the key derived from the account PRIVATE key along m/c/i (get_private_key): the wallet
+   holds the signing key of every address it lists. *)
+Theorem C06_chain_address_private_key :
+  forall (hmac512 : bytes -> bytes -> bytes) (pub : bytes -> bytes) (pub_add : bytes -> bytes -> option bytes)
+         (hash160 : bytes -> bytes),
+  (forall k l, priv_valid k = true -> pub_add (pub k) l = option_map pub (priv_add k l)) ->
+  forall (dsha : bytes -> bytes) prefix k c i, priv_ok k -> c < HARDENED -> i < HARDENED ->
+  chain_address hmac512 pub_add hash160 dsha prefix (neuter pub k) c i =
+  bind (derive hmac512 pub pub_add hash160 k [c; i]) (fun sk => address hash160 dsha prefix (pubkey_of pub sk)).
+Proof. exact chain_address_private. Qed.
+Print Assumptions C06_chain_address_private_key.
+
 (* ======================================================================== address chains *)
 
 (* Whatever the history of ensure_address_gap calls (any gap values) and usage updates, row i of a chain has
